@@ -437,6 +437,13 @@ func (ev *evalEnv) eval(e *Expr) tv {
 		if a.v.K == KBool {
 			return mathBool("(ite " + cnd + " " + a.v.T[0] + " " + b.v.T[0] + ")")
 		}
+		if len(a.v.T) > 1 && len(a.v.T) == len(b.v.T) {
+			r := &Val{K: a.v.K}
+			for i := range a.v.T {
+				r.T = append(r.T, "(ite "+cnd+" "+a.v.T[i]+" "+b.v.T[i]+")")
+			}
+			return tv{v: r, t: a.t}
+		}
 		return mathInt("(ite " + cnd + " " + a.v.T[0] + " " + b.v.T[0] + ")")
 	case "let":
 		a := ev.eval(e.A[0])
